@@ -126,8 +126,9 @@ def run(ctx):  # noqa: C901
             okf = ok and inner[0] == "+" and any(x[0] == "neg" and x[1][0] == "call" and x[1][1] in ("numpy.eye", "numpy.identity") for x in inner[1]) and \
                 any(x[0] == "/" and x[1] == ("n", "mat") and x[2][0] == "**" and x[2][2] == ("c", 2) for x in inner[1])
             ctx.ob("R-PRED", sb, "|| rho/||rho||_F^2 - I ||_F <= 1", bool(okf), "Gurvits-Barnum condition" if okf else f"condition {show(t)[:100]}", rn)
-    nrm = any(isinstance(n, ast.Assign) and unparse(n).replace(" ", "") == "mat=mat/np.trace(mat)" for n in walk_no_nested(sb.node))
-    ctx.ob("R-PRED", sb, "operator normalised to unit trace before the test", nrm, "mat / trace(mat)" if nrm else "trace normalisation missing")
+    from .. import pmatch
+    nrm = pmatch.tri(pmatch.find(sb.node, ["_X = _X / np.trace(_X)", "_X /= np.trace(_X)", "_Y = _X / np.trace(_X)"]), bool(pmatch.find(sb.node, ["_A / np.trace(_B)"])) or any(isinstance(n, ast.AugAssign) and isinstance(n.op, ast.Div) for n in walk_no_nested(sb.node)))
+    ctx.ob("R-PRED", sb, "operator normalised to unit trace before the test", nrm, "X / trace(X)" if nrm else "trace normalisation missing" if nrm is False else "np.trace is used, but not as X / trace(X)", required=nrm is not None)
 
 
 def _governance(ctx, f):
